@@ -433,10 +433,16 @@ impl Server {
         let (report, metrics) = ValidationReport::process(
             engine, config, initial
         )?;
+        #[cfg(feature = "verif-hooks")]
+        crate::verif::point("server.before_update", || "");
         let must_notify = history.update(
             report, exceptions, metrics,
         );
+        #[cfg(feature = "verif-hooks")]
+        crate::verif::point("server.after_update", || "");
         history.mark_update_done();
+        #[cfg(feature = "verif-hooks")]
+        crate::verif::point("server.after_done", || "");
         if log::max_level() >= log::Level::Info {
             let (metrics, serial, duration) = {
                 let history = history.read();
@@ -463,10 +469,29 @@ impl Server {
             );
         }
         if must_notify {
+            #[cfg(feature = "verif-hooks")]
+            crate::verif::point("server.before_notify", || "");
             info!("Sending out notifications.");
             notify.notify();
         }
+        #[cfg(feature = "verif-hooks")]
+        crate::verif::point("server.after_notify", || "");
         Ok(())
+    }
+
+    /// Runs one iteration of the server’s validation loop.
+    #[cfg(feature = "verif-hooks")]
+    pub fn verif_process_once(
+        config: &Config,
+        engine: &Engine,
+        history: &SharedHistory,
+        notify: &mut NotifySender,
+        exceptions: &LocalExceptions,
+        initial: bool,
+    ) -> Result<(), RunFailed> {
+        Self::process_once(
+            config, engine, history, notify, exceptions, initial
+        )
     }
 }
 
